@@ -138,6 +138,9 @@ def run(ctx):
                                 header_keys.add(m.slice.value)
                             if isinstance(m, ast.Dict):
                                 header_keys |= {k.value for k in m.keys if isinstance(k, ast.Constant) and isinstance(k.value, str)}
+                            # keys given to `result.update(zip((<keys>), values))` / `dict(zip(...))`
+                            if isinstance(m, ast.Call) and isinstance(m.func, ast.Name) and m.func.id == "zip" and m.args and isinstance(m.args[0], (ast.Tuple, ast.List)):
+                                header_keys |= {e.value for e in m.args[0].elts if isinstance(e, ast.Constant) and isinstance(e.value, str)}
             # reader pairs: X["key"] = ... fchk["label"] ...   /  helper("label", fchk, target, "key")
             if isinstance(n, ast.Assign) and isinstance(n.targets[0], ast.Subscript) and isinstance(n.targets[0].slice, ast.Constant) and isinstance(n.targets[0].value, ast.Name) and isinstance(n.targets[0].slice.value, str):
                 for m in ast.walk(n.value):
@@ -285,8 +288,23 @@ def run(ctx):
             probs.append("non-string / empty value")
         if lo_ is not None and not all(v == v.title() and v.isalpha() and len(v) <= 2 for v in vals):
             probs.append("symbols are not 1-2 letter title-case")
-        b = pm.bindings.get(inv)
-        invok = b is not None and isinstance(b.value, ast.DictComp) and src_of(b.value.generators[0].iter) == f"{fwd}.items()" and isinstance(b.value.generators[0].target, ast.Tuple) and src_of(b.value.key) == src_of(b.value.generators[0].target.elts[1]) and src_of(b.value.value) == src_of(b.value.generators[0].target.elts[0]) and not b.value.generators[0].ifs
+        # the inverse table, as a value (a comprehension, dict(zip(values, keys)), a loop-free expression of any form)
+        try:
+            tinv = ce.global_value(pm, inv)
+        except NotConstant:
+            tinv = None
+            b = pm.bindings.get(inv)
+            if b is not None and getattr(b, "value", None) is not None:
+                from ..accessors import AccessorEval
+                from ..symarr import NotSymbolic
+
+                ev_ = AccessorEval(prog, None, limit=4000)
+                ev_.module = pm
+                try:
+                    tinv = ev_._eval(b.value, {})
+                except NotSymbolic as exc:
+                    raise AnalysisError(f"periodic.{inv} is outside the evaluation whitelist: {exc}") from exc
+        invok = isinstance(tinv, dict) and tinv == {v: k for k, v in t.items()}
         if not invok:
             probs.append(f"{inv} is not defined as the inversion of {fwd}")
         where = f"{pm.relpath}:{pm.bindings[fwd].stmt.lineno}"
@@ -297,27 +315,10 @@ def run(ctx):
 
     # ------------------------------------------------------------------ R6
     ctx.rule("R6", "POSCAR element blocks are driven by one sequence", "symbols, counts and coordinate blocks disagree: atoms reload with another element")
-    pd = prog.format_op("poscar", "dump_one")
-    iters = []
-    for n in pd.own_nodes():
-        if isinstance(n, ast.comprehension) or isinstance(n, ast.For):
-            it = n.iter
-            tgt = n.target
-            if isinstance(it, ast.Name) and isinstance(tgt, ast.Name) and "atnum" in tgt.id.lower():
-                iters.append((it.id, n))
-    seqs = {a for a, _ in iters}
-    if len(iters) >= 3 and len(seqs) == 1:
-        seq = next(iter(seqs))
-        d = deref(pd, ast.Name(id=seq, ctx=ast.Load()))
-        ctx.ok("R6", f"symbols line, counts line and coordinate loop all iterate `{seq}` = {src_of(d)[:50]}", f"{pd.module.relpath}:{iters[0][1].lineno if hasattr(iters[0][1], 'lineno') else pd.lineno}")
-        # counts and coordinates select atoms by equality with the same element
-        sel = [n for n in pd.own_nodes() if isinstance(n, ast.Compare) and "atnums" in src_of(n.left) and isinstance(n.ops[0], ast.Eq)]
-        if len(sel) >= 2:
-            ctx.ok("R6", "counts and coordinate blocks both select `data.atnums == element`", pd.where)
-        else:
-            ctx.violate("R6", "POSCAR counts / coordinates are not both selected by `data.atnums == element`", pd, pd.node, construct="poscar selection")
-    else:
-        ctx.violate("R6", f"POSCAR symbols, counts and coordinates are driven by {sorted(seqs)} ({len(iters)} iterations found): they must share one element sequence", pd, pd.node, construct=f"poscar sequences {sorted(seqs)}")
+    # decided by evaluation: the writer on a model cell with atoms [H, O, H] into a text sink, the VASP header reader
+    # on the lines -- symbols, counts and coordinate blocks agree exactly when every atom comes back with its own
+    # element at its own position (however the writer loops over the elements)
+    check_poscar_pair(ctx, "R6")
 
     # ------------------------------------------------------------------ R7
     ctx.rule("R7", "dict-typed attributes are never loaded as None", "IOData(atcharges=None): every consumer that iterates the dictionary fails, dump of the reloaded object raises")
